@@ -13,7 +13,6 @@ use std::collections::hash_map::DefaultHasher;
 use std::collections::{BTreeMap, BTreeSet};
 use std::fmt::Debug;
 use std::hash::{Hash, Hasher};
-use std::panic::{catch_unwind, AssertUnwindSafe};
 
 #[derive(Clone, Copy, PartialEq, Eq, Debug)]
 pub enum Tier {
@@ -75,12 +74,16 @@ impl<T> Outcome<T> {
     }
 }
 
-/// Run `f`, turning a panic into a value.
+/// Run `f`, turning a panic — or an unexpected hardware fault (see umh::guarded) — into a value.
 pub fn outcome<T>(f: impl FnOnce() -> T) -> Outcome<T> {
-    match catch_unwind(AssertUnwindSafe(f)) {
+    match crate::umh::guarded(f) {
         Ok(v) => Outcome::Ret(v),
-        Err(_) => Outcome::Panic(LAST_PANIC.with(|p| p.borrow().clone())),
+        Err(m) => Outcome::Panic(m),
     }
+}
+
+pub fn last_panic_message() -> String {
+    LAST_PANIC.with(|p| p.borrow().clone())
 }
 
 // ------------------------------------------------------------------------------------------------
